@@ -11,10 +11,12 @@ trap 'git -C /repo worktree remove --force "$WT" 2>/dev/null; rm -rf "$WT"' EXIT
 if ! git -C "$WT" apply "$PATCH"; then echo "PATCH-DOES-NOT-APPLY"; exit 8; fi
 (cd "$WT" && go build ./... ) || { echo "DOES-NOT-COMPILE"; exit 7; }
 ok=0
+[ -n "${SKIP_SUITE:-}" ] && ok=2
 for i in 1 2 3; do
+  [ $ok = 2 ] && break
   if (cd "$WT" && go test -vet=off -count=1 -timeout 25m ./... > "$WT/suite.out" 2>&1); then ok=1; break; fi
 done
-if [ $ok = 1 ]; then echo "SUITE: pass (attempt $i)"; else echo "SUITE: FAIL"; grep -E "^(--- FAIL|FAIL)" "$WT/suite.out" | head -5; fi
+if [ $ok = 2 ]; then echo "SUITE: skipped"; elif [ $ok = 1 ]; then echo "SUITE: pass (attempt $i)"; else echo "SUITE: FAIL"; grep -E "^(--- FAIL|FAIL)" "$WT/suite.out" | head -5; fi
 for c in $CHECKS; do
   VERIF_REPO="$WT" /verif/run $c quick > "$WT/check.$c.out" 2>&1; rc=$?
   echo "CHECK $c quick: exit $rc"
